@@ -51,6 +51,10 @@ def tree_hash():
                 h.update(fh.read())
     with open(TOOL, "rb") as fh:
         h.update(hashlib.sha256(fh.read()).digest())
+    ex = os.path.join(VERIF, "spec", "instantiate.cc")
+    if os.path.exists(ex):
+        with open(ex, "rb") as fh:
+            h.update(fh.read())
     h.update(REPO.encode())
     return h.hexdigest()[:24]
 
@@ -149,7 +153,9 @@ def facts_dir(tier="quick", log=None):
     fcntl.flock(lock, fcntl.LOCK_EX)
     try:
         marker = os.path.join(out, "done.json")
-        want_tests = tier == "thorough"
+        # test and tutorial units are always extracted: several header templates (IndexContainer4::operator(),
+        # ElementWithPermFreq::operator(), IndexContainer2) are only instantiated there
+        want_tests = True
         if os.path.exists(marker):
             info = json.load(open(marker))
             if (info.get("tests") or not want_tests) and all(os.path.exists(p) for c in info["index"].values() for p in c.values()):
@@ -178,6 +184,17 @@ def facts_dir(tier="quick", log=None):
             lib = [e for e in entries if "/src/" in e["file"]]
             tests = [e for e in entries if "/src/" not in e["file"]]
             use = lib + (tests if want_tests else [])
+            # explicit instantiations of header templates the default build never instantiates completely
+            extra_src = os.path.join(VERIF, "spec", "instantiate.cc")
+            if os.path.exists(extra_src) and lib:
+                e0 = dict(lib[0])
+                src0 = e0["file"]
+                cmd = e0["command"].replace(" -c " + src0, " -c " + extra_src)
+                import re as _re2
+                cmd = _re2.sub(r" -o \S+", " -o instantiate.o", cmd)
+                e0["command"] = cmd
+                e0["file"] = extra_src
+                use = use + [e0]
             jobs = []
             hh = _hdr_hash()
             tudir = os.path.join(CACHE, "tu")
@@ -198,7 +215,7 @@ def facts_dir(tier="quick", log=None):
                 os.makedirs(out, exist_ok=True)
                 index[cfgname] = {}
                 for e, e2 in zip(use, db):
-                    rel = os.path.relpath(e["file"], REPO)
+                    rel = os.path.relpath(e["file"], REPO) if e["file"].startswith(REPO + "/") else "src/__verif__/" + os.path.basename(e["file"])
                     tf = os.path.join(tudir, _tu_key(hh, e["file"], cfgname, e2["command"]) + ".json")
                     index[cfgname][rel] = tf
                     jobs.append((e["file"], cfgname, dbdir, tf))
